@@ -40,6 +40,10 @@ class Store:
         self.violations = []       # online monitor findings
         self.rng = random.Random(seed)
         self.latency = None        # None | callable(op, name, idx) -> seconds
+        # rendezvous probe (C09): calls of one op wait, holding whatever the caller holds, until `target` of them have
+        # arrived: {'op', 'target', 'arrived', 'met', 'timeout', 'timed_out'}.  Reaching the target proves that the
+        # caller can keep that many transfers in flight at once.
+        self.rendezvous = None
         self.faults = []           # list of dicts, see _maybe_fault
         self.fault_hits = 0
         self.completion_order = []  # call indices in completion order
@@ -88,6 +92,27 @@ class Store:
             self.completion_order.append(idx)
             self.log.append({'call': idx, 'op': op, 'name': name, 'outcome': outcome,
                              "n": nbytes, "actor": actor or self.current_actor()})
+
+    def rendezvous_arrive(self, op):
+        """-> None if nothing to wait for, else a predicate 'may I go on?'"""
+        rv = self.rendezvous
+        if rv is None or rv['op'] != op or rv['met'] or rv.get('timed_out'):
+            return None
+        with self.lock:
+            rv['arrived'] += 1
+            if rv['arrived'] >= rv['target']:
+                rv['met'] = True
+                return None
+        deadline = time.monotonic() + rv['timeout']
+
+        def may_go():
+            if rv['met'] or rv.get('timed_out'):
+                return True
+            if time.monotonic() > deadline:
+                rv['timed_out'] = True
+                return True
+            return False
+        return may_go
 
     def delay_for(self, op, name, idx):
         if self.latency is None:
@@ -169,6 +194,9 @@ class MemBackend(_Common, short_name='vfmem'):
             d = st.delay_for(op, name, idx)
             if d:
                 time.sleep(d)
+            go = st.rendezvous_arrive(op)
+            while go is not None and not go():
+                time.sleep(0.002)
             exc = st.maybe_fault(op, name, idx, 'before')
             if exc is not None:
                 raise exc
@@ -257,6 +285,9 @@ class AsyncMemBackend(_Common, short_name='vfamem'):
         try:
             d = st.delay_for(op, name, idx)
             await asyncio.sleep(d or 0)
+            go = st.rendezvous_arrive(op)
+            while go is not None and not go():
+                await asyncio.sleep(0.002)
             exc = st.maybe_fault(op, name, idx, 'before')
             if exc is not None:
                 raise exc
